@@ -864,6 +864,23 @@ Proof.
   destruct (Z.eqb_spec (fst a) i) as [E|_]; [exfalso; apply Hn; now left|]. apply IH. intros H. apply Hn. now right.
 Qed.
 
+(* a request may name a simulant several times; what matters is that equal labels carry equal attributes *)
+Definition functional (ss : list (Z * simulant)) : Prop :=
+  forall a b, In a ss -> In b ss -> fst a = fst b -> snd a = snd b.
+
+Lemma functional_incl (l l' : list (Z * simulant)) : incl l l' -> functional l' -> functional l.
+Proof. intros Hi Hf a b Ha Hb. apply Hf; now apply Hi. Qed.
+
+Lemma zassoc_map_fun {C} (g : simulant -> C) (l : list (Z * simulant)) s :
+  functional l -> In s l -> zassoc (fst s) (map (fun x => (fst x, g (snd x))) l) = Some (g (snd s)).
+Proof.
+  induction l as [|a t IH]; simpl; intros Hf Hs; [contradiction|].
+  destruct (Z.eqb_spec (fst a) (fst s)) as [E|Hne].
+  - rewrite (Hf a s (or_introl eq_refl) Hs E). reflexivity.
+  - destruct Hs as [->|Hs]; [congruence|]. apply IH; [|exact Hs].
+    apply (functional_incl t (a :: t)); [intros x Hx; now right | exact Hf].
+Qed.
+
 Lemma sub_table_In ss key s : In s (sub_table ss key) <-> In s ss /\ skeys (snd s) = key.
 Proof. unfold sub_table. rewrite filter_In, zlist_eqb_eq. tauto. Qed.
 
@@ -929,25 +946,24 @@ Section MapRes.
   Definition partial (done : list (list Z)) (ss : list (Z * simulant)) : frame :=
     map (fun s => (fst s, if existsb (zlist_eqb (skeys (snd s))) done then val (h (snd s)) else None)) ss.
 
-  Lemma assign_partial (ss : list (Z * simulant)) key done : NoDup (map fst ss) ->
+  Lemma assign_partial (ss : list (Z * simulant)) key done : functional ss ->
     assign (partial done ss) (pointwise (sub_table ss key)) = partial (key :: done) ss.
   Proof.
     intros Hn. unfold assign, partial. rewrite map_map. apply map_ext_in. intros s Hs. cbn [fst snd existsb].
     destruct (zlist_eqb (skeys (snd s)) key) eqn:E.
     - assert (Hsub : In s (sub_table ss key)) by (apply sub_table_In; split; [exact Hs | now apply zlist_eqb_eq]).
       unfold pointwise.
-      rewrite (zassoc_map_in (fun x => val (h (snd x))) (sub_table ss key) s); [reflexivity| |exact Hsub].
-      unfold sub_table. now apply NoDup_map_filter.
+      rewrite (zassoc_map_fun (fun x => val (h x)) (sub_table ss key) s); [reflexivity| |exact Hsub].
+      apply (functional_incl _ ss); [|exact Hn]. intros x Hx. now apply sub_table_In in Hx.
     - unfold pointwise. rewrite zassoc_map_notin; [reflexivity|].
       intros Hin. apply in_map_iff in Hin as [s' [Ef Hs']]. apply sub_table_In in Hs' as [Hs' Ek].
-      assert (s' = s) by (apply (NoDup_map_inj fst ss); assumption). subst s'.
-      apply zlist_eqb_neq in E. contradiction.
+      rewrite (Hn s' s Hs' Hs Ef) in Ek. apply zlist_eqb_neq in E. contradiction.
   Qed.
 
   Lemma sub_table_key (ss : list (Z * simulant)) key s : In s (sub_table ss key) -> skeys (snd s) = key.
   Proof. intros H. now apply sub_table_In in H. Qed.
 
-  Lemma run_groups_ok (ss : list (Z * simulant)) : NoDup (map fst ss) -> forall keys done,
+  Lemma run_groups_ok (ss : list (Z * simulant)) : functional ss -> forall keys done,
     (forall key, In key keys -> sub_table ss key <> []) ->
     (forall s, In s ss -> In (skeys (snd s)) keys -> okb (h (snd s)) = true) ->
     run_groups f ss keys (partial done ss) = Ok (partial (rev keys ++ done) ss).
@@ -965,7 +981,7 @@ Section MapRes.
     - intros s Hs Hk. apply Hok; [exact Hs | now right].
   Qed.
 
-  Lemma run_groups_rejected (ss : list (Z * simulant)) : NoDup (map fst ss) -> forall keys done,
+  Lemma run_groups_rejected (ss : list (Z * simulant)) : functional ss -> forall keys done,
     (forall key, In key keys -> sub_table ss key <> []) ->
     (exists s, In s ss /\ In (skeys (snd s)) keys /\ okb (h (snd s)) = false) ->
     exists e, run_groups f ss keys (partial done ss) = Rejected e.
@@ -993,7 +1009,7 @@ Section MapRes.
     now rewrite E.
   Qed.
 
-  Theorem by_groups_pointwise (ss : list (Z * simulant)) : NoDup (map fst ss) -> agree (by_groups f ss) (map_res h ss).
+  Theorem by_groups_pointwise (ss : list (Z * simulant)) : functional ss -> agree (by_groups f ss) (map_res h ss).
   Proof using Hf Hh.
     intros Hn. unfold by_groups. set (keys := sort_keys (map (fun s => skeys (snd s)) ss)).
     assert (Hkeys : forall s, In s ss -> In (skeys (snd s)) keys).
@@ -1197,22 +1213,35 @@ Proof.
     + split; [intros _; eauto | reflexivity].
 Qed.
 
+Lemma gather_functional pop idx ss : gather pop idx = Some ss -> functional ss.
+Proof.
+  intros Eg a b Ha Hb E. pose proof (gather_In pop idx ss Eg a Ha) as Ea. pose proof (gather_In pop idx ss Eg b Hb) as Eb.
+  rewrite E in Ea. congruence.
+Qed.
+
+Lemma with_year_all_functional ypos yv ss : functional ss -> functional (with_year_all ypos yv ss).
+Proof.
+  intros Hf a b Ha Hb E. unfold with_year_all in *.
+  apply in_map_iff in Ha as [a0 [<- Ha]]. apply in_map_iff in Hb as [b0 [<- Hb]]. simpl in *.
+  now rewrite (Hf a0 b0 Ha Hb E).
+Qed.
+
 Lemma with_year_all_fst ypos yv ss : map fst (with_year_all ypos yv ss) = map fst ss.
 Proof. unfold with_year_all. rewrite map_map. reflexivity. Qed.
 
 (* C15_local *)
-Theorem table_call_local ext d k ypos yv pop idx : NoDup idx ->
+Theorem table_call_local ext d k ypos yv pop idx :
   agree (table_call ext d k ypos yv pop idx)
         (match gather pop idx with
          | None => Rejected EPopulation
          | Some ss => map_res (lookup_one ext d k) (with_year_all ypos yv ss)
          end).
 Proof.
-  intros Hn. unfold table_call. destruct (gather pop idx) as [ss|] eqn:Eg; [|exact I].
+  unfold table_call. destruct (gather pop idx) as [ss|] eqn:Eg; [|exact I].
   unfold interp_call. apply by_groups_pointwise.
   - apply lookup_one_not_oof.
   - intros key sub. apply interp_group_agree.
-  - rewrite with_year_all_fst, (gather_fst pop idx ss Eg). exact Hn.
+  - apply with_year_all_functional. now apply (gather_functional pop idx).
 Qed.
 
 (* ================================================================================================================ *)
@@ -1221,7 +1250,7 @@ Qed.
 Lemma pointwise_fst h (ss : list (Z * simulant)) : map fst (pointwise h ss) = map fst ss.
 Proof. unfold pointwise. rewrite map_map. reflexivity. Qed.
 
-Theorem table_call_indexed ext d k ypos yv pop idx fr : NoDup idx ->
+Theorem table_call_indexed ext d k ypos yv pop idx fr :
   table_call ext d k ypos yv pop idx = Ok fr ->
   map fst fr = idx /\
   exists ss, gather pop idx = Some ss /\
@@ -1229,7 +1258,7 @@ Theorem table_call_indexed ext d k ypos yv pop idx fr : NoDup idx ->
              forall s, In s (with_year_all ypos yv ss) ->
                        lookup_one ext d k (snd s) = Ok (val (lookup_one ext d k (snd s))).
 Proof.
-  intros Hn E. pose proof (table_call_local ext d k ypos yv pop idx Hn) as A. rewrite E in A.
+  intros E. pose proof (table_call_local ext d k ypos yv pop idx) as A. rewrite E in A.
   destruct (gather pop idx) as [ss|] eqn:Eg; [|contradiction].
   destruct (map_res (lookup_one ext d k) (with_year_all ypos yv ss)) as [fr'| |] eqn:Em; try contradiction.
   simpl in A. subst fr'.
@@ -1237,14 +1266,14 @@ Proof.
   split; [|eauto]. now rewrite pointwise_fst, with_year_all_fst, (gather_fst pop idx ss Eg).
 Qed.
 
-Theorem table_call_rejected_iff ext d k ypos yv pop idx : NoDup idx ->
+Theorem table_call_rejected_iff ext d k ypos yv pop idx :
   ((exists e, table_call ext d k ypos yv pop idx = Rejected e) <->
    (gather pop idx = None \/
     exists ss s e, gather pop idx = Some ss /\ In s (with_year_all ypos yv ss) /\
                    lookup_one ext d k (snd s) = Rejected e)) /\
   table_call ext d k ypos yv pop idx <> OutOfFuel.
 Proof.
-  intros Hn. pose proof (table_call_local ext d k ypos yv pop idx Hn) as A.
+  pose proof (table_call_local ext d k ypos yv pop idx) as A.
   destruct (gather pop idx) as [ss|] eqn:Eg.
   - split.
     + split.
@@ -1308,15 +1337,15 @@ Proof.
     + intros s Hs. unfold cat_one. now rewrite (Hkey s Hs), EG.
 Qed.
 
-Theorem cat_call_local d pop idx : nodup_keys d = true -> NoDup idx ->
+Theorem cat_call_local d pop idx : nodup_keys d = true ->
   agree (cat_call d pop idx)
         (match gather pop idx with None => Rejected EPopulation | Some ss => map_res (cat_one d) ss end).
 Proof.
-  intros Hnd Hn. unfold cat_call. destruct (gather pop idx) as [ss|] eqn:Eg; [|exact I].
+  intros Hnd. unfold cat_call. destruct (gather pop idx) as [ss|] eqn:Eg; [|exact I].
   apply by_groups_pointwise.
   - apply cat_one_not_oof.
   - intros key sub. now apply cat_group_agree.
-  - now rewrite (gather_fst pop idx ss Eg).
+  - now apply (gather_functional pop idx).
 Qed.
 
 (* what one simulant gets: the values of THE data row with its key tuple *)
@@ -1330,12 +1359,12 @@ Proof.
   rewrite EG in H. destruct H as [<-|[]]. reflexivity.
 Qed.
 
-Theorem cat_call_indexed d pop idx fr : nodup_keys d = true -> NoDup idx -> cat_call d pop idx = Ok fr ->
+Theorem cat_call_indexed d pop idx fr : nodup_keys d = true -> cat_call d pop idx = Ok fr ->
   map fst fr = idx /\
   exists ss, gather pop idx = Some ss /\ fr = pointwise (cat_one d) ss /\
              forall s, In s ss -> cat_one d (snd s) = Ok (val (cat_one d (snd s))).
 Proof.
-  intros Hnd Hn E. pose proof (cat_call_local d pop idx Hnd Hn) as A. rewrite E in A.
+  intros Hnd E. pose proof (cat_call_local d pop idx Hnd) as A. rewrite E in A.
   destruct (gather pop idx) as [ss|] eqn:Eg; [|contradiction].
   destruct (map_res (cat_one d) ss) as [fr'| |] eqn:Em; try contradiction. simpl in A. subst fr'.
   destruct (map_res_ok_inv _ (cat_one_not_oof d) _ _ Em) as [-> Hall].
